@@ -221,31 +221,33 @@ def lexBackquoteUnits (ctx : Ctx) : Nat → List Char → Option (List Backquote
   | fuel + 1, cs =>
     match skipLC cs with
     | [] => none                                           -- UnclosedBackquote
-    | '\\' :: rest =>
-      match skipLC rest with
-      | c :: rest' =>
-        if c = '$' || c = '`' || c = '\\' || (c = '"' && ctx = .text) then
-          (lexBackquoteUnits ctx fuel rest').map fun (us, r) => (.backslashed c :: us, r)
-        else (lexBackquoteUnits ctx fuel (c :: rest')).map fun (us, r) => (.literal '\\' :: us, r)
-      | [] => none
-    | c :: rest =>
-      if c = '`' then some ([], rest)
-      else (lexBackquoteUnits ctx fuel rest).map fun (us, r) => (.literal c :: us, r)
+    | c0 :: rest =>
+      if c0 = '\\' then
+        match skipLC rest with
+        | c :: rest' =>
+          if c = '$' || c = '`' || c = '\\' || (c = '"' && ctx = .text) then
+            (lexBackquoteUnits ctx fuel rest').map fun (us, r) => (.backslashed c :: us, r)
+          else (lexBackquoteUnits ctx fuel (c :: rest')).map fun (us, r) => (.literal '\\' :: us, r)
+        | [] => none
+      else if c0 = '`' then some ([], rest)
+      else (lexBackquoteUnits ctx fuel rest).map fun (us, r) => (.literal c0 :: us, r)
 
 /-- `has_length_prefix` (look-ahead only) on the input after `${` -/
 def hasLengthPrefix (cs : List Char) : Bool :=
   match skipLC cs with
-  | '#' :: r =>
-    match skipLC r with
-    | [] => true
-    | c :: r2 =>
-      if c = '}' || c = '+' || c = '=' || c = ':' || c = '%' then false
-      else if c = '-' || c = '?' || c = '#' then
-        match skipLC r2 with
-        | [] => true
-        | c2 :: _ => c2 = '}'
-      else true
-  | _ => false
+  | [] => false
+  | c0 :: r =>
+    if c0 = '#' then
+      match skipLC r with
+      | [] => true
+      | c :: r2 =>
+        if c = '}' || c = '+' || c = '=' || c = ':' || c = '%' then false
+        else if c = '-' || c = '?' || c = '#' then
+          match skipLC r2 with
+          | [] => true
+          | c2 :: _ => c2 = '}'
+        else true
+    else false
 
 /-- `parse_tilde` with `delimit_at_colon = false`: `(consumed units, name, followed_by_slash)` -/
 def parseTildeName : List WordUnit → Option (Nat × List Char × Bool)
@@ -271,6 +273,49 @@ def validId (id : List Char) : Bool :=
   match id with
   | c :: _ => if isAsciiDigit c then id.all isAsciiDigit else true
   | [] => false
+
+/-- the parameter of `braced_param`: a run of name characters (checked by `type_of_id`) or one special
+    parameter character -/
+def lexParamId (fuel : Nat) (cs : List Char) : Option (List Char × List Char) :=
+  match skipLC cs with
+  | [] => none                                             -- EmptyParam
+  | c :: r =>
+    if isNameChar c then
+      if validId (c :: (takeName fuel r).1) then some (c :: (takeName fuel r).1, (takeName fuel r).2)
+      else none                                            -- InvalidParam
+    else if isSpecialParamChar c then some ([c], r)
+    else none                                              -- EmptyParam
+
+/-- `skip_if(|c| c == ':')` at the start of `suffix_modifier` -/
+def skipColon (cs : List Char) : Bool × List Char :=
+  match skipLC cs with
+  | [] => (false, [])
+  | c :: r => if c = ':' then (true, r) else (false, c :: r)
+
+/-- `switch`: the action named by the symbol -/
+def switchAction (s : Char) : SwitchAction :=
+  if s = '+' then .alter else if s = '-' then .default else if s = '=' then .assign else .error
+
+/-- `trim`: a doubled symbol selects the longest match -/
+def trimLength (s : Char) (cs : List Char) : Bool × List Char :=
+  match skipLC cs with
+  | [] => (false, [])
+  | s2 :: r => if s2 = s then (true, r) else (false, s2 :: r)
+
+def Modifier.isNone : Modifier → Bool
+  | .none => true
+  | _ => false
+
+/-- the end of `braced_param`: the closing brace and the `(has_length_prefix, suffix)` table -/
+def closeBraced (hasLen : Bool) (id : List Char) (m : Modifier) (cs : List Char) : Res TextUnit :=
+  match skipLC cs with
+  | [] => .err                                             -- UnclosedParam
+  | c :: r =>
+    if c = '}' then
+      if hasLen then
+        if m.isNone then .ok (.bracedParam id .length) r else .err   -- MultipleModifier
+      else .ok (.bracedParam id m) r
+    else .err                                              -- UnclosedParam
 
 /-- `unit == Some(TextUnit::Literal('$'))` -/
 def isLitDollar : TextUnit → Bool
@@ -315,55 +360,29 @@ mutual
     | 0, _, _ => .err
     | fuel + 1, ctx, cs =>
       let hasLen := hasLengthPrefix cs
-      let cs := if hasLen then (skipLC cs).drop 1 else cs
-      match skipLC cs with
-      | [] => .err                                         -- EmptyParam
-      | c :: r =>
-        let idr : Option (List Char × List Char) :=
-          if isNameChar c then
-            let (n, r') := takeName fuel r
-            if validId (c :: n) then some (c :: n, r') else none   -- InvalidParam
-          else if isSpecialParamChar c then some ([c], r)
-          else none                                        -- EmptyParam
-        match idr with
-        | none => .err
-        | some (id, r) =>
-          -- `suffix_modifier`
-          let (colon, r1) := match skipLC r with
-            | ':' :: r1 => (true, r1)
-            | r1 => (false, r1)
-          let modr : Option (Modifier × List Char) :=
-            match skipLC r1 with
-            | [] => if colon then none else some (.none, [])
-            | s :: r2 =>
-              if s = '+' || s = '-' || s = '=' || s = '?' then
-                let a := if s = '+' then SwitchAction.alter else if s = '-' then .default
-                         else if s = '=' then .assign else .error
-                match lexWordUnits fuel ctx .brace r2 with
-                | some (w, r3) =>
-                  some (.switch colon a (match ctx with | .word => parseTildeFront w | .text => w), r3)
-                | none => none
-              else if s = '#' || s = '%' then
-                if colon then none else                    -- InvalidModifier
-                let side := if s = '#' then TrimSide.pfx else .sfx
-                let (longest, r3) := match skipLC r2 with
-                  | s2 :: r3 => if s2 = s then (true, r3) else (false, s2 :: r3)
-                  | [] => (false, [])
-                match lexWordUnits fuel .word .brace r3 with
-                | some (w, r4) => some (.trim side longest (parseTildeFront w), r4)
-                | none => none
-              else if colon then none else some (.none, s :: r2)
-          match modr with
-          | none => .err
-          | some (m, r5) =>
-            match skipLC r5 with
-            | '}' :: r6 =>
-              if hasLen then
-                match m with
-                | .none => .ok (.bracedParam id .length) r6
-                | _ => .err                                -- MultipleModifier
-              else .ok (.bracedParam id m) r6
-            | _ => .err                                    -- UnclosedParam
+      match lexParamId fuel (if hasLen then (skipLC cs).drop 1 else cs) with
+      | none => .err                                       -- EmptyParam / InvalidParam
+      | some (id, r) =>
+        -- `suffix_modifier`
+        let colon := (skipColon r).1
+        match skipLC (skipColon r).2 with
+        | [] => .err                                       -- InvalidModifier / UnclosedParam
+        | s :: r2 =>
+          if s = '+' || s = '-' || s = '=' || s = '?' then
+            match lexWordUnits fuel ctx .brace r2 with
+            | some (w, r3) =>
+              closeBraced hasLen id
+                (.switch colon (switchAction s) (if ctx = .word then parseTildeFront w else w)) r3
+            | none => .err
+          else if s = '#' || s = '%' then
+            if colon then .err else                        -- InvalidModifier
+            match lexWordUnits fuel .word .brace (trimLength s r2).2 with
+            | some (w, r4) =>
+              closeBraced hasLen id
+                (.trim (if s = '#' then .pfx else .sfx) (trimLength s r2).1 (parseTildeFront w)) r4
+            | none => .err
+          else if colon then .err                          -- InvalidModifier
+          else closeBraced hasLen id .none (s :: r2)
 
   /-- `Lexer::text(is_delimiter, is_escapable)` in the text context (content of `"…"`) -/
   def lexTextUnits : Nat → Delim → List Char → Option (List TextUnit × List Char)
@@ -424,7 +443,7 @@ end
 
 /-- `WordLexer::word(is_delimiter)` in a word context with enough fuel for the whole input -/
 def lexWord (d : Delim) (cs : List Char) : Option (Word × List Char) :=
-  lexWordUnits (cs.length + 2) .word d cs
+  lexWordUnits (cs.length + 4) .word d cs
 
 /-! ## Word tokens of a simple command -/
 
